@@ -250,7 +250,8 @@ Inductive op :=
 | OQNew (a : uarg)                            (* q = Quantity(ndarray, a) *)
 | OQImul (a : uarg)                           (* q *= Quantity(1, a) *)
 | OQDim                                       (* q.dimensionality *)
-| OOther.                                     (* something happens to ANOTHER registry *)
+| OOther                                      (* something happens to ANOTHER registry *)
+| ODefinePrefix (p : pdef).                   (* ureg.define("name- = value = symbol-") *)
 
 (** how the string/container arguments reach the core functions *)
 Definition arg_parsed_pure tk (r : reg) (a : uarg) : res uc :=
@@ -268,10 +269,19 @@ Definition eff_system (d : decl) (system : option string) : option string :=
 Definition define_members (systems : gmap string sysdef) (n : string) : gmap string sysdef :=
   fmap (λ sd, if sy_orphans sd && negb (bool_decide (n ∈ sy_members sd))
               then SysDef (sy_base sd) (app (sy_members sd) [n]) true else sd) systems.
+(** [_add_prefix]: the definition under its name, symbol and aliases (as [Registry.elab1]) *)
+Definition add_prefix (r : reg) (p : pdef) : reg :=
+  let r1 := add_prefix_key (p_name p) p r in
+  let r2 := match p_sym p with
+            | Some s => if String.eqb s "" then r1 else add_prefix_key s p r1
+            | None => r1
+            end in
+  fold_left (λ r a, add_prefix_key a p r) (p_aliases p) r2.
 Definition decl_step tk (d : decl) (o : op) : decl :=
   match o with
   | ODefine ud => Decl (add_unit_def (d_reg d) ud) (define_members (d_systems d) (u_name ud))
                        (d_contexts d) (d_default d) (d_active d) (d_obj d)
+  | ODefinePrefix p => Decl (add_prefix (d_reg d) p) (d_systems d) (d_contexts d) (d_default d) (d_active d) (d_obj d)
   | OEnable c =>
       match d_contexts d !! c with
       | Some _ => Decl (d_reg d) (d_systems d) (d_contexts d) (d_default d) (c :: d_active d) (d_obj d)
@@ -331,6 +341,7 @@ Definition pure_answer tk (d : decl) (o : op) : answer :=
       end
   | OQDim => match d_obj d with Some u => ans_of ADim (dim_of r u) | None => AErr KOther end
   | OOther => ADone
+  | ODefinePrefix _ => ADone
   end.
 
 (** * The live registry *)
@@ -621,6 +632,7 @@ Definition live (qk : quirks) tk (o : op) : cstate → cstate * answer := λ s,
       end
   | OQDim => fin ADim (obj_dim qk s)
   | OOther => (s, ADone)
+  | ODefinePrefix p => (set_base (λ r, add_prefix r p) s, ADone)      (* prefixes are registry-level, not layered *)
   end.
 
 Definition step (qk : quirks) tk (s : cstate) (o : op) : cstate * answer :=
@@ -658,7 +670,7 @@ Definition project (which : bool) (ops : list (bool * op)) : list op :=
 (** the sub-alphabet of the invariant theorem: no [define], only contexts without redefinitions *)
 Definition op_plain (d : decl) (o : op) : bool :=
   match o with
-  | ODefine _ => false
+  | ODefine _ | ODefinePrefix _ => false
   | OEnable c => match ctx_redefs d c with [] => true | _ => false end
   | _ => true
   end.
